@@ -36,10 +36,13 @@ let ledger removed np s =
 
 let nat c = nat_of_int c
 
+(* block id of the model = piece * 64 + block number (16 KiB blocks) *)
+let blk_id i o = n_of_int (int_of_string i * 64 + int_of_string o / 16384)
+
 let pmsg_of kind =
   match String.split_on_char '@' kind with
-  | [k; i] ->
-      let b = n_of_string i in
+  | [k; io] ->
+      let b = (match String.split_on_char '.' io with [i; o] -> blk_id i o | _ -> failwith "blk") in
       (match k with
        | "bad" -> MPiece (b, Some (n_of_int 10))
        | _ -> MPiece (b, None))
@@ -74,10 +77,11 @@ let ops_of_token np tok : op list =
       (match List.tl f with
        | "un" :: _ -> [LibMsg (nat p, LUnchoke)]
        | "ch" :: _ -> [LibMsg (nat p, LChoke)]
-       | "rq" :: i :: _ -> [LibMsg (nat p, LRequest (n_of_string i))]
+       | "rq" :: i :: o :: _ -> [LibMsg (nat p, LRequest (blk_id i o))]
        | "ps" :: _ -> [LibMsg (nat p, LPieceStart)]
        | _ -> [])
-  | 'A' -> if tok = "A:ptick" then PexTick :: List.init np (fun c -> PexEnable (nat c)) else []
+  | 'A' -> if tok = "A:ptick" then PexTick :: List.init np (fun c -> PexEnable (nat c))
+           else if tok = "A:max:1" then [SetMax (z_of_int 1)] else []
   | 'D' -> [HashDone (n_of_string (List.nth f 1))]
   | 'E' -> [Abort (nat (peer_of hd))]
   | 'V' -> []
